@@ -196,6 +196,21 @@ def api_declarations(pairs, seed):
             want = r == 'unsat'
             if got != want:
                 problems.append((f'implies_type_hints(x in {a_}..{b_})', dict(got=got, want=want)))
+        # default vrs=None: every declared identifier, rigid constants included
+        crl, crh = link.rep_range(t['c'])
+        for k in range(4):
+            a_ = rnd.randint(rl, rh)
+            b_ = rnd.randint(a_, rh)
+            cv = rnd.randint(crl, crh)
+            u = aut.add_expr(f'(x \\in {a_}..{b_}) /\\ (c = {cv})')
+            got = aut.implies_type_hints(u)
+            sol = z3.Solver()
+            sol.add(exp.export(u), z3.Not(z3.And(inh(X), inh(C))))
+            r = str(sol.check())
+            q[r] = q.get(r, 0) + 1
+            want = r == 'unsat'
+            if got != want:
+                problems.append((f'implies_type_hints(x in {a_}..{b_} /\\ c = {cv}) with the default vrs', dict(got=got, want=want)))
         if problems:
             lab, vals = problems[0]
             out.append(core.res(name0, 'violation', queries=q, solver_s=solver_s, sample=sample, nontrivial=True,
